@@ -33,6 +33,44 @@ def run(tier, seed, pid=PID, flavour='plain', n=None, maxpop=2000):
         y = rnd.choice([2018, 2020, 2023, 2026]); m = rnd.randint(1, 12)
         rt = 'FREQ=MONTHLY;BYMONTHDAY=%s;SHIFT=%s' % (rnd.choice(['-1,1', '1,2,-1', '-1,1,15', '30,31,1']), rnd.choice(['1B', '0B', '-0B', '2B', '-1B', '1B+']))
         cases.append(fam(nf, (y, m, 1), rt)); nf += 1
+    # zoned events whose UNTIL (a UTC value) lies in the other half of the zone's year than DTSTART, a few minutes before or after
+    # an occurrence: the occurrence just after UNTIL must not come out, whatever offset the zone had at DTSTART
+    import tzif, bisect, datetime as D
+    def off_at(z, u):
+        i = bisect.bisect_right(z['trans'], u) - 1
+        return z['offs'][i] if i >= 0 else z['off0']
+    def utc_of(z, loc):
+        for o in sorted(set(z['offs'][-8:] + [z['off0']]), reverse=True):
+            if off_at(z, loc - o) == o: return loc - o
+        return None
+    E0 = D.datetime(1970, 1, 1)
+    for zn in ('Europe/Berlin', 'America/New_York', 'Australia/Sydney', 'Europe/London', 'Pacific/Chatham', 'America/Sao_Paulo'):
+        z = tzif.read('/usr/share/zoneinfo/' + zn)
+        if z is None: continue
+        for _ in range(60 if tier == 'thorough' else 10):
+            y = rnd.randint(1990, 2030); m = rnd.randint(1, 12); d = rnd.randint(1, 28); h = rnd.randint(0, 23); mi = rnd.choice([0, 15, 30, 45])
+            loc0 = int((D.datetime(y, m, d, h, mi) - E0).total_seconds()); u0 = utc_of(z, loc0)
+            if u0 is None: continue
+            freq, step = rnd.choice([('DAILY', 1), ('DAILY', 1), ('WEEKLY', 7), ('HOURLY', 0), ('MONTHLY', 0)])
+            nd = None
+            for k in sorted(rnd.sample(range(20, 300), 40)):
+                if step == 7: k -= k % 7
+                uk = utc_of(z, loc0 + k * 86400)
+                if uk is not None and off_at(z, uk) != off_at(z, u0): nd = k; break
+            if nd is None: continue
+            if freq == 'MONTHLY':
+                # the occurrence of a later month on the same day of the month
+                mm = m + rnd.randint(3, 8); yy = y + (mm - 1) // 12; mm = (mm - 1) % 12 + 1
+                lk = int((D.datetime(yy, mm, d, h, mi) - E0).total_seconds())
+            else: lk = loc0 + nd * 86400
+            uk = utc_of(z, lk)
+            if uk is None or off_at(z, uk) == off_at(z, u0): continue
+            un = uk + rnd.choice([-59, -30, -10, -1, 0, 1, 30]) * 60
+            ut = E0 + D.timedelta(seconds=un)
+            until = [ut.year, ut.month, ut.day, ut.hour, ut.minute, ut.second, 0]
+            rt = 'FREQ=%s;UNTIL=%04d%02d%02dT%02d%02d%02dZ' % ((freq,) + tuple(until[:6]))
+            c = fam(nf, (y, m, d, h, mi, 0), rt, zn); c['until'] = rrgen.inst(tuple(until[:6])); c['maxpop'] = 8000 if freq == 'HOURLY' else 2000
+            cases.append(c); nf += 1
     nsl = vlib.NCPU; per = -(-len(cases) // nsl)
     env_asan = flavour == 'asan'
     if env_asan:
@@ -63,4 +101,4 @@ def run(tier, seed, pid=PID, flavour='plain', n=None, maxpop=2000):
            'rule': 'one case = one event over the whole accepted rule language: 1..3 RRULEs, every FREQ, BY parts incl. ordinals under any FREQ, BYEASTER, SHIFT (day, business day, -0B, B+/B-), SCALE=HIJRI.*, TZID, COUNT/UNTIL; its stream is followed for up to 2000 pops (about 30 refills) with next/pop interleaved. Non-trivial = the parser accepted the event and at least one occurrence came out',
            'occurrences_monitored': nocc, 'mismatching_streams': v['nbad'], 'events_not_accepted': v['nskip'], 'build': flavour, 'exhaustive': False}
     return vlib.finish(pid, tier, seed, 'model_checking', cov, t0, unlisted, listed,
-                       ['TLC/SANY, Json/IOUtils', 'Instant.tla ordering', 'for TZID events DTSTART/UNTIL bounds are checked with one day of allowance'])
+                       ['TLC/SANY, Json/IOUtils', 'Instant.tla ordering', 'for TZID events the DTSTART bound (a wall-clock value) is checked with one day of allowance; a date-time UNTIL is a UTC value and is checked exactly'])
